@@ -35,6 +35,7 @@ static Plan c08_gen(uint64_t seed, int tier, uint64_t index) {
     if (ver < 3 && r.chance(1, 2)) { p.cfg["split"] = 1 + (int64_t) r.below(3); }
     if (r.chance(1, 3)) { p.cfg["sibling"] = 1; }
     if (r.chance(1, 6) && ver != 2) { p.cfg["resume"] = 1; if (p.get("tickets") && r.chance(1, 2)) { p.cfg["rotate"] = 1; } }
+    if (p.get("resume") && p.get("tickets") && r.chance(1, 3)) { p.cfg["tkcut"] = 1 + (int64_t) r.below(140); }
     // faults early in the handshake (plaintext parsers), at arbitrary parking points
     int nf = 1 + (int) r.below(4);
     for (int i = 0; i < nf; i++) {
@@ -142,6 +143,16 @@ static std::vector<Plan> c08_fixed(int tier) {
                     }
                 }
             }
+        }
+    }
+    // a second connection that presents only the first N bytes of the session ticket the first connection was issued, every N
+    for (int ver = 0; ver < 5; ver++) {
+        if (ver == 2) { continue; }
+        for (int n = 1; n <= 130; n += (tier ? 1 : (n < 20 || (n > 60 && n < 68) ? 1 : 5))) {
+            Plan p; p.seed = 80000 + 9000 + (uint64_t) (ver * 200 + n);
+            p.cfg["ver"] = ver; p.cfg["suite"] = (n & 1) ? TLS_RSA_WITH_AES_128_CBC_SHA : TLS_ECDHE_RSA_WITH_AES_128_CBC_SHA; p.cfg["tickets"] = 1; p.cfg["resume"] = 1; p.cfg["tkcut"] = n;
+            p.ops.push_back(Op("hs")); p.ops.push_back(Op("send", 0, 20)); p.ops.push_back(Op("pump"));
+            v.push_back(p);
         }
     }
     // a record that makes the receiver answer on its own (bad MAC / tag, garbage, unexpected message) arrives while the receiver still has
